@@ -114,7 +114,8 @@ def near_tie_inject(rng, src, dst, ts, te):
             u = math.nextafter(t, math.inf if k > 0 else -math.inf)
         else:
             u = t + rng.choice([-1, 1]) * 1e-15 * T
-        if ts <= u <= te:
+        # no subnormal neighbourhoods: halving a subnormal ISI underflows to 0 and a power-of-two scale is no longer exact
+        if ts <= u <= te and (u == t or abs(u - t) >= 1e-290):
             out.add(u)
     return sorted(out)
 
